@@ -80,6 +80,12 @@ CLAIMED = {
         "Real arithmetic; np.linalg.inv is a parameter (contract: exact inverse), executed by Gauss-Jordan in the Float model. Found and fixed D13.",
         "§6 C11",
     ),
+    "C13": (
+        "Lean 4 theorems: ML weights >= 0 and 1 <= sum <= 1 + C thr/T (exactly 1 without floor), variances >= floors > 0 after ML/MAP M-steps and in every reachable machine state, every denominator (clip(n,thr), t, n + r, weight normaliser, guarded k-means counts) and log argument (weights, variances, mixture density) is positive; Float model vs implementation on a degenerate input stream + always-on finiteness search over all trainers",
+        "Proof of the range facts that make the float statement true, for all C, D, statistics with non-negative counts. Tie: k-means iteration / variances-weights / ML M-step on duplicated rows, constant columns, fewer distinct points than components, far outliers and empty clusters (model keeps the centroid of an empty cluster; NaN compared as NaN).",
+        "Partial by nature: NaN/inf are float notions, established only on sampled runs by the always-on search (k-means, GMM ML all switches, GMM MAP, k-means-initialised GMM, i-vector). Zero-weight components rely on IEEE log 0 = -inf and are excluded from the theorems. Found and fixed D2.",
+        "§6 C13",
+    ),
 }
 
 NOT_YET = "check not built yet in this round (see DESIGN.md §8 order of work); not claimed"
